@@ -44,6 +44,15 @@ static double now_s() {
   return duration<double>(steady_clock::now().time_since_epoch()).count();
 }
 
+static std::string one_line(std::string s) {
+  for (size_t i = 0; i < s.size(); ++i) {
+    if (s[i] == '\n' || s[i] == '\r') {
+      s[i] = ' ';
+    }
+  }
+  return s;
+}
+
 static std::string hex(uint64_t v) {
   char buf[32];
   snprintf(buf, sizeof(buf), "%016llx", static_cast<unsigned long long>(v));
@@ -70,7 +79,7 @@ static int do_replay(const std::string &path) {
   RunResult r = it->second->execute(plan);
   printf("RESULT %s %s %s\n", r.violation ? "VIOL" : "ok", hex(r.event_hash).c_str(), r.violation ? r.rule.c_str() : "-");
   if (r.violation) {
-    printf("DETAIL %s\n", r.detail.c_str());
+    printf("DETAIL %s\n", one_line(r.detail).c_str());
   }
   J c = J::object();
   for (auto &kv : r.counters) {
@@ -233,7 +242,7 @@ int main(int argc, char **argv) {
       }
       if (r.violation) {
         ++viol;
-        printf("DETAIL %s\n", r.detail.c_str());
+        printf("DETAIL %s\n", one_line(r.detail).c_str());
         J cand = plan;
         J &ex = cand["expect"];
         ex["rule"] = J(r.rule);
